@@ -200,7 +200,11 @@ def r26b(ctx, run):
             # the loop ends only when the iterator is exhausted
             for u, v in r.loop_exit_edges(h, body):
                 ch = r.switch_operand(u) if r.blocks[u]["t"]["k"] == "switch" else None
-                if not (ch and ch.get("kind") == "discr" and any(short(n["callee"]) == "next" for n in FA.chain_calls(ch))):
+                of = (ch or {}).get("of") or {}
+                while of.get("kind") in ("place", "ref", "copy", "move") and isinstance(of.get("base", of.get("of")), dict):
+                    of = of.get("base", of.get("of"))
+                # the test that leaves the loop is the iterator's own `next()` answer (not a test on something derived from the element)
+                if not (ch and ch.get("kind") == "discr" and of.get("kind") == "call" and short(of["callee"]) == "next"):
                     good = False
                     detail.append("the loop over the parents can be left early (edge bb%d -> bb%d): later parents keep a stale count" % (u, v))
             # inside an iteration the decrement depends only on the parent still being present
